@@ -754,3 +754,12 @@ def g11_h10(ctx):
 
 
 RULES.append(g11_h10)
+
+
+@rule("G12", doc="the symmetries of a NEW class are derived when it is created: its first e-node is queued with PendingType::Full unconditionally (C14.A4) — the self-symmetry derivation runs for it even when no child has redundant slots")
+def g12_a4(ctx):
+    from . import c14
+    c14.a4(ctx)
+
+
+RULES.append(g12_a4)
